@@ -1,0 +1,6 @@
+//go:build !verif
+
+package api
+
+// VerifTap is a no-op unless built with the "verif" tag.
+func VerifTap(string, string, *Context, any) {}
